@@ -232,7 +232,8 @@ class Pool():
         if self._map_guard:
             raise RuntimeError('recursive map!')
         if not set(self._get_all_workers_ids()).difference(self._closed): # no workers
-            return
+            # nobody can process the input: say so instead of dropping it silently, just like when the last worker dies during a run
+            raise PoolError('Pool failed to process the input - there are no live workers', partial_results=([] if return_results else None))
 
         try:
             self._map_guard = True
